@@ -34,6 +34,8 @@ type Case struct {
 	CH, N  int     `json:",omitempty"` // SCEP challenge / notifying webhooks
 	CRL    bool    `json:",omitempty"` // crl.enabled + generateOnRevoke
 	NoDB   bool    `json:",omitempty"` // the authority runs without a database (db.SimpleDB)
+	CT     string  `json:",omitempty"` // certType of the enriching / authorizing webhooks: "" (ALL) | unset | typed | other
+	Deny   bool    `json:",omitempty"` // every enriching / authorizing webhook answers allow=false whenever asked
 	Var    string  `json:",omitempty"` // variant of the request: scep renewal | update; acme ids2 | pending | ids2pending
 	Chk    int     // index of the in-process check made to fail by the request's content, -1 = none
 	Faults []Fault `json:",omitempty"`
@@ -61,7 +63,11 @@ func (k *Case) render() string {
 	if v == "" {
 		v = "-"
 	}
-	return fmt.Sprintf("run op=%s var=%s e=%d a=%d ch=%d n=%d crl=%s db=%s chk=%s faults=%s sub=%s", k.Op, v, k.E, k.A, k.CH, k.N, c.B(k.CRL),
+	ct := k.CT
+	if ct == "" {
+		ct = "all"
+	}
+	return fmt.Sprintf("run op=%s var=%s ct=%s whdeny=%s e=%d a=%d ch=%d n=%d crl=%s db=%s chk=%s faults=%s sub=%s", k.Op, v, ct, c.B(k.Deny), k.E, k.A, k.CH, k.N, c.B(k.CRL),
 		c.B(!k.NoDB), chk, c.List(fs), c.List(subs)) + cs
 }
 
@@ -81,6 +87,12 @@ func hasToken(op string) bool {
 // A failure is decisive unless it is a read whose error the code may ignore, or a webhook
 // attempt with a retryable failure that is followed by a further attempt at the same kind of
 // webhook (the later attempt decides).
+// standingDenial: the case configures enriching / authorizing webhooks that apply to the request
+// (certType ALL, unset or the issued type) and answer allow=false whenever asked.
+func standingDenial(k *Case) bool {
+	return k.Deny && k.E+k.A > 0 && k.CT != "other" && k.Var != "badhook"
+}
+
 func failClosed(cl, got string, trace, ids []string, handedN, recordedN, rev, tok int, reuse string, noDB bool) string {
 	if cl == "ok" {
 		asked, allowed := false, false
@@ -201,9 +213,12 @@ func runCase(k *Case) (res result) {
 	}
 	d := func(t string) int { return after[t] - before[t] }
 	stored, rev := d("x509_certs")+d("ssh_certs"), d("revoked_x509_certs")+d("revoked_ssh_certs")
+	fc := failClosed(cl, r.got(), ev, ids, len(hs), nrec, rev, d("used_ott"), reuse, k.NoDB)
+	if cl == "ok" && standingDenial(k) { // a webhook that applies to the request says no, and the request succeeded
+		fc = "BROKEN"
+	}
 	out := fmt.Sprintf("%s got=%s tok=%d stored=%d data=%d rev=%d reuse=%s handed=%d recorded=%d fc=%s trace=%s", cl, r.got(),
-		d("used_ott"), stored, d("x509_certs_data"), rev, reuse, len(hs), nrec,
-		failClosed(cl, r.got(), ev, ids, len(hs), nrec, rev, d("used_ott"), reuse, k.NoDB), c.List(ev))
+		d("used_ott"), stored, d("x509_certs_data"), rev, reuse, len(hs), nrec, fc, c.List(ev))
 	return result{out: out, trace: ev}
 }
 
@@ -249,12 +264,14 @@ type scenario struct {
 	CRL      bool
 	NoDB     bool
 	Var      string
+	CT       string
+	Deny     bool
 	Chks     []int // indices of the in-process decisions the request content can make fail
 	Thorough bool  // only in the thorough tier
 }
 
 func (s scenario) newCase(chk int, fs ...Fault) *Case {
-	return &Case{Op: s.Op, E: s.E, A: s.A, CH: s.CH, N: s.N, CRL: s.CRL, NoDB: s.NoDB, Var: s.Var, Chk: chk, Faults: fs}
+	return &Case{Op: s.Op, E: s.E, A: s.A, CH: s.CH, N: s.N, CRL: s.CRL, NoDB: s.NoDB, Var: s.Var, CT: s.CT, Deny: s.Deny, Chk: chk, Faults: fs}
 }
 
 var scenarios = []scenario{
@@ -279,6 +296,18 @@ var scenarios = []scenario{
 	// webhook definitions that cannot be used (secret not base64): refused before any call
 	{Op: "sign", Var: "badhook", E: 1, A: 1}, {Op: "sign", Var: "badhook", A: 1}, {Op: "sshsign", Var: "badhook", E: 1},
 	{Op: "scep", Var: "badhook", CH: 1, N: 1}, {Op: "scep", Var: "badhook", N: 1}, {Op: "acme", Var: "badhook", A: 1},
+	// certType of the webhooks: not written at all (means all), the issued type, the other type (not consulted)
+	{Op: "sign", CT: "unset", E: 1, A: 1}, {Op: "sshsign", CT: "unset", E: 1, A: 1}, {Op: "acme", CT: "unset", A: 1},
+	{Op: "scep", CT: "unset", E: 1, A: 1}, {Op: "sign", CT: "typed", E: 1, A: 1}, {Op: "sshsign", CT: "typed", A: 1},
+	{Op: "sign", CT: "other", E: 1, A: 1}, {Op: "sshsign", CT: "other", E: 1, A: 1},
+	// a standing denial: the provisioner's enriching / authorizing webhooks say no whenever they are asked
+	{Op: "sign", Deny: true, E: 1, A: 1}, {Op: "sign", Deny: true, CT: "unset", E: 1}, {Op: "sign", Deny: true, CT: "unset", A: 1},
+	{Op: "sign", Deny: true, CT: "typed", A: 1}, {Op: "sign", Deny: true, CT: "other", E: 1, A: 1},
+	{Op: "sshsign", Deny: true, CT: "unset", A: 1}, {Op: "sshsign", Deny: true, CT: "typed", E: 1}, {Op: "sshsign", Deny: true, CT: "other", E: 1, A: 1},
+	{Op: "acme", Deny: true, CT: "unset", A: 1}, {Op: "scep", Deny: true, CT: "unset", A: 1}, {Op: "sshsignfull", Deny: true, CT: "unset", A: 1},
+	// authority.enableAdmin with the local database (adminDB = nosql admin store, which stores no certificates)
+	{Op: "sign", Var: "admin"}, {Op: "renew", Var: "admin"}, {Op: "rekey", Var: "admin"}, {Op: "revoke", Var: "admin"},
+	{Op: "sshsign", Var: "admin"}, {Op: "sshrenew", Var: "admin"}, {Op: "sshrevoke", Var: "admin"}, {Op: "sshrenew", Var: "adminidentity"},
 	// SCEP message types: RenewalReq validates the challenge like PKCSReq, UpdateReq does not (as coded; C15)
 	{Op: "scep", Var: "renewal", CH: 1, N: 1}, {Op: "scep", Var: "update", CH: 2, N: 1},
 	// ACME: two identifiers; an order still pending in the database (Finalize makes it ready itself)
@@ -293,7 +322,7 @@ var scenarios = []scenario{
 }
 
 var srcFns = []string{"authorizeToken", "authorizeSign", "signX509", "authorizeRenew", "renewContext", "Revoke",
-	"signSSH", "SignSSHAddUser", "renewSSH", "rekeySSH", "Finalize", "FinalizeOrder", "PKIOperation", "SignCSR", "Validate", "DoWithContext", "@signers", "@callers", "@scepTypes"}
+	"signSSH", "SignSSHAddUser", "renewSSH", "rekeySSH", "Finalize", "FinalizeOrder", "PKIOperation", "SignCSR", "Validate", "DoWithContext", "@signers", "@callers", "@scepTypes", "@storers", "@adminStore"}
 
 func runAll(ks []*Case, workers int) []result {
 	out := make([]result, len(ks))
@@ -409,7 +438,11 @@ func main() {
 			}
 		}
 		// a webhook attempt that fails retryably is followed by a second attempt at p+1
+		light := !*pairs && (s.CT != "" || s.Deny || strings.HasPrefix(s.Var, "admin")) // configuration variants: single faults only in quick
 		for p, ev := range tr {
+			if light {
+				break
+			}
 			if st := stepOf(ev); st == "enrich" || st == "authorize" || st == "challenge" || st == "notify" {
 				// second answers: all realisations in the thorough tier; in the quick tier one
 				// realisation per outcome kind, rotating with the position (the single-fault
@@ -451,7 +484,7 @@ func main() {
 					}
 				}
 			}
-		} else if len(tr) > 1 {
+		} else if len(tr) > 1 && !light {
 			for j := 0; j < *n; j++ {
 				p1 := rng.Intn(len(tr))
 				p2 := rng.Intn(len(tr) + 1)
